@@ -38,10 +38,41 @@ package subscription
 //@ func ExecutorEngine.startSubscription
 //@   requires e != nil
 //@   at call ExecutorEngine.executeSubscription: assert {nothing.is.executed.or.emitted.after.the.terminal.event.of.this.operation} count(terminalEmitted) == old(count(terminalEmitted))
+//@   at call? subscriptionCancellations.Cancel: assert {a.subscription.goroutine.never.releases.an.id.by.name.a.successor.may.own.it.by.then} false
 //@   modifies *, count(emitted), count(terminalEmitted)
 //@   safety no-typeassert
 //@   loop 0:
 //@     invariant count(terminalEmitted) == old(count(terminalEmitted))
+
+// the registry id -> cancel function is shared between the connection's read loop (AddWithParent, Cancel through
+// StopSubscription, TerminateAllSubscriptions) and the goroutines of the operations (Cancel at the end of a query):
+// it is read and written only under its mutex
+//@ decl guarded subscriptionCancellations.cancellations by mu
+//@ func subscriptionCancellations.AddWithParent
+//@   requires sc != nil && !held(sc.mu) && !rheld(sc.mu)
+//@   ensures !held(sc.mu) && !rheld(sc.mu)
+//@   modifies *
+//@   safety no-nilmap
+//@ func subscriptionCancellations.Cancel
+//@   requires sc != nil && !held(sc.mu) && !rheld(sc.mu)
+//@   ensures !held(sc.mu) && !rheld(sc.mu)
+//@   modifies *
+//@ func subscriptionCancellations.CancelAll
+//@   requires sc != nil && !held(sc.mu) && !rheld(sc.mu)
+//@   ensures !held(sc.mu) && !rheld(sc.mu)
+//@   modifies *
+//@ func subscriptionCancellations.Len
+//@   requires sc != nil && !held(sc.mu) && !rheld(sc.mu)
+//@   ensures !held(sc.mu) && !rheld(sc.mu)
+//@   modifies *
+//@ func ExecutorEngine.TerminateAllSubscriptions
+//@   requires e != nil && !held(e.subCancellations.mu) && !rheld(e.subCancellations.mu)
+//@   modifies *, count(emitted), count(terminalEmitted)
+//@ func ExecutorEngine.StopSubscription
+//@   requires e != nil && !held(e.subCancellations.mu) && !rheld(e.subCancellations.mu)
+//@   at call subscriptionCancellations.Cancel: assert {the.stopped.id.is.cancelled} arg1 == id
+//@   at call EventHandler.Emit: assert {the.completion.goes.to.the.stopped.id} arg2 == id
+//@   modifies *, count(emitted), count(terminalEmitted)
 
 //@ func ExecutorEngine.handleNonSubscriptionOperation
 //@   requires e != nil
